@@ -313,6 +313,7 @@ def run(ctx):
     lean_check(ctx, "I18nVerif.Theorems.C19", "C19_")
     lean_check(ctx, "I18nVerif.Theorems.C19Section", "C19_")
     lean_check(ctx, "I18nVerif.Theorems.C19SectionRest", "C19_")
+    lean_check(ctx, "I18nVerif.Theorems.C19ManifestConfig", "C19_")
     rng = ctx.rng
     binp = build_parser(ctx)
     if binp is None:
@@ -456,6 +457,8 @@ def run(ctx):
                     "case": project_text(p), "format": fmt, "missing_file": rel, "file_present_instead": wrong, "implementation": str(res)[:300],
                     "expected_by_spec": "error LocaleFileNotFound: only the extensions of the build's own format name this build's files"})
     ctx.assumptions += ["the TOML parser is an oracle: the model and the spec start from the decoded table; duplicate TOML keys are rejected by the parser itself",
-                        "identifier validity of names as in Key.new (ASCII)"]
+                        "identifier validity of names as in Key.new (ASCII)",
+                        "hypothesis `hnl` of C19_manifest_before_ignored (a blank first line does not change what the TOML parser decodes) is an assumption about the "
+                        "third-party parser, exercised by the end-to-end stage (0-6 lines and other tables before the section)"]
     finish_broken(ctx, f"{len(cases)} configurations")
     write_evidence(ctx, RULE)
